@@ -45,7 +45,14 @@ CLAIMED = {
  "C16": dict(cat="exploration", tech="request-log and file-system monitor over four places (URLs, datastore, cache output, editor output) with a global injectivity map file name -> role name; role documents are handed out in request order so no encoding is assumed",
     text="Role names over a 12-symbol alphabet of path-significant characters: exhaustive to length 3 (quick) / 4 (thorough), special names, random names to 64 symbols, 8 roles per repository; plain-entry rule on every request and every created file (tree snapshots of the parents), collision = two role names on one file.",
     note="Names whose encoded form exceeds NAME_MAX may be refused.", ref="§5 C16"),
+ "C17": dict(cat="exploration", tech="differential runtime monitor: metadata before vs after load -> RepositoryEditor::from_repo -> sign -> write, member by member on the canonical form, plus re-load through the client",
+    text="Random repositories with unknown members at the top level of every role's signed portion and custom data on targets are updated (new versions/expirations, 0..3 added targets); every old target entry, the delegations object, every unknown member of targets/snapshot/timestamp, every delegated role file (signed portion + signature list) and the snapshot entries of delegated roles must survive, and the result must load.",
+    note="Target names URL-inert here.", ref="§5 C17"),
+ "C19": dict(cat="exploration", tech="file-system and re-load monitor around Repository::cache: tree snapshots of the parent directory, re-load of the copy via file://, version equality, byte-wise read-back, root-chain presence, corrupted-source probe",
+    text="Random repositories (delegations to depth 3, odd role names, target names of every URL class, both consistent-snapshot settings, root chains 1..3) served from memory are cached with every subset shape, with/without root chain, a quarter with one corrupted source target. Known finding: names of 5 URL classes cannot be read back from the file:// copy.",
+    note="The source is served from memory; what is judged is the copy.", ref="§5 C19"),
 }
+
 
 
 
